@@ -69,16 +69,18 @@ fn main() {
             // (engine, runs quick, runs thorough)
             let plan: Vec<(&str, u64, u64)> = match prop.as_str() {
                 "C04" => vec![("wire-c04", 150_000, 6_000_000)],
-                "C06" => vec![("wire-c06", 150_000, 4_000_000)],
+                "C06" => vec![("wire-c06", 150_000, 4_000_000), ("wire-c06-enum", 2_000, 60_000)],
                 "C07" => vec![("wire-c07", 60_000, 2_000_000)],
                 "C09" => vec![("wire-c09", 150_000, 5_000_000)],
-                "C18" => vec![("wire-c18", 150_000, 4_000_000)],
+                "C18" => vec![("wire-c18", 150_000, 4_000_000), ("wire-c18-enum", 3_000, 120_000)],
                 "C19" => vec![("wire-c19", 150_000, 5_000_000)],
                 _ => usage(),
             };
             let property: &'static str = Box::leak(prop.clone().into_boxed_str());
             let mut exit = 0;
-            for (i, (ename, q, t)) in plan.iter().enumerate() {
+            let mut merged: Option<Value> = None;
+            let t0 = std::time::Instant::now();
+            for (ename, q, t) in plan.iter() {
                 let engine = engine_by_name(ename).unwrap();
                 let runs = env_u64("VERIF_RUNS", if thorough { *t } else { *q });
                 let o = Opts {
@@ -88,13 +90,9 @@ fn main() {
                     workers,
                     tier: tier.clone(),
                     max_wall_s: if thorough { 1500.0 } else { 120.0 },
-                    level: "exploration",
-                    det_runs: if thorough { 20_000 } else { 3_000 },
-                    evidence_path: if i == 0 {
-                        format!("/verif/evidence/{}.json", prop)
-                    } else {
-                        format!("/verif/evidence/{}.part{}.json", prop, i)
-                    },
+                    level: if matches!(prop.as_str(), "C06" | "C18") { "fault_enumeration" } else { "exploration" },
+                    det_runs: if ename.ends_with("-enum") { if thorough { 300 } else { 60 } } else if thorough { 20_000 } else { 3_000 },
+                    evidence_path: String::new(),
                     extra: Value::Null,
                 };
                 let r = runner::check(&*engine, &o);
@@ -102,6 +100,31 @@ fn main() {
                     exit = 2;
                 } else if r.exit == 1 && exit == 0 {
                     exit = 1;
+                }
+                if r.evidence.is_null() {
+                    continue;
+                }
+                match &mut merged {
+                    None => merged = Some(r.evidence),
+                    Some(m) => {
+                        // the enumeration engine's coverage rides along under its own key
+                        let v = r.evidence["violations"].as_i64().unwrap_or(0) + m["violations"].as_i64().unwrap_or(0);
+                        m["violations"] = Value::from(v);
+                        m["coverage"]["fault_enumeration"] = r.evidence["coverage"].clone();
+                        let mut a: Vec<Value> = m["assumptions"].as_array().cloned().unwrap_or_default();
+                        for x in r.evidence["assumptions"].as_array().cloned().unwrap_or_default() {
+                            if !a.contains(&x) {
+                                a.push(x);
+                            }
+                        }
+                        m["assumptions"] = Value::Array(a);
+                    }
+                }
+            }
+            if let Some(mut m) = merged {
+                m["wall_s"] = Value::from(t0.elapsed().as_secs_f64());
+                if !runner::write_evidence(&format!("/verif/evidence/{}.json", prop), &m) {
+                    exit = 2;
                 }
             }
             std::process::exit(exit);
